@@ -21,11 +21,15 @@ def mk_radio(kind, chip):
 class Link:
     """two chips on one medium, a driver object on each"""
 
-    def __init__(self, tx_kind="full", rx_kind="full", mcu=None, plus=True):
+    def __init__(self, tx_kind="full", rx_kind="full", mcu=None, plus=True, warm=None):
         self.sim = Sim(mcu=Mcu.from_dict(mcu) if mcu else None)
         self.med = Medium(self.sim)
         self.T = Chip(self.sim, self.med, "T", plus=plus)
         self.R = Chip(self.sim, self.med, "R", plus=plus)
+        if warm is not None:
+            # both MCUs were reset while the radios kept their supply (another program's configuration, FIFO contents, flags)
+            self.T.warm_start(warm)
+            self.R.warm_start(warm + 1)
         self.tx = mk_radio(tx_kind, self.T)
         self.rx = mk_radio(rx_kind, self.R)
         self.tx_kind, self.rx_kind = tx_kind, rx_kind
@@ -67,13 +71,16 @@ def unhex(h):
 
 
 def with_plus(part):
-    """the same part with the chip variant as one more dimension: every third enumerated case and a quarter of the
-    generated ones run on two non-plus nRF24L01 chips (FEATURE / DYNPD locked until the ACTIVATE command).  Only for
+    """the same part with the chip variant and the chips' state at construction as two more dimensions: every third
+    enumerated case and a quarter of the generated ones run on two non-plus nRF24L01 chips (FEATURE / DYNPD locked until the
+    ACTIVATE command); every fourth enumerated case and a third of the generated ones start from warm chips (Chip.warm_start).  Only for
     cases of the full driver: rf24_lite is documented as not compatible with the non-plus variant."""
     from vlib.harness.runner import Part
     src = part.source
 
-    def mark(c, nonplus):
+    def mark(c, nonplus, warm=None):
+        if warm is not None and "warm" not in c:
+            c = dict(c, warm=warm)
         if not nonplus or "plus" in c or c.get("drv", "full") == "lite" or c.get("peer", "full") == "lite":
             return c
         return dict(c, plus=False)
@@ -81,11 +88,12 @@ def with_plus(part):
     if part.kind == "enum":
         def source():
             for i, c in enumerate(src()):
-                yield mark(c, i % 3 == 2)
+                yield mark(c, i % 3 == 2, i if i % 4 == 1 else None)
     elif part.kind == "gen":
         def source():
             from hypothesis import strategies as st
-            return src().flatmap(lambda c: st.sampled_from([False, False, False, True]).map(lambda b: mark(c, b)))
+            return src().flatmap(lambda c: st.tuples(st.sampled_from([False, False, False, True]), st.one_of(st.none(), st.none(), st.integers(0, 1 << 20)))
+                                 .map(lambda bw: mark(c, bw[0], bw[1])))
     else:
         return part
     return Part(part.name, part.kind, source, n=part.n, exhaustive=part.exhaustive, weight=part.weight)
